@@ -6,6 +6,7 @@ import (
 	"encoding/json"
 	"fmt"
 	"os"
+	"runtime/debug"
 
 	"verifmc/checks"
 	"verifmc/engine"
@@ -16,6 +17,7 @@ func main() {
 		fmt.Fprintln(os.Stderr, "usage: verif <Cxx> quick|thorough | verif <Cxx> replay <file>")
 		os.Exit(2)
 	}
+	debug.SetGCPercent(400)
 	id, mode := os.Args[1], os.Args[2]
 	c, ok := checks.Registry[id]
 	if !ok {
